@@ -48,13 +48,17 @@ def _sym_psd(rec, A, name, sig, pd=False):
 
 @st.composite
 def continuum_cases(draw):
-    kind = draw(st.sampled_from(["2d", "2d", "3d"]))
+    kind = draw(st.sampled_from(["2d", "2d", "3d", "m2d", "m3d"]))
     if kind == "2d":
         r = draw(gm.recipes2d(perm_ok=True))
         law = draw(gmod.elastic_specs(2))
-    else:
+    elif kind == "3d":
         r = draw(gm.recipes3d(perm_ok=True))
         law = draw(gmod.elastic_specs(3))
+    else:  # deliberately mixed meshes (Mesh.Merge of two blocks of different element types)
+        d = 2 if kind == "m2d" else 3
+        r = draw(gm.merged_recipes(d))
+        law = draw(gmod.elastic_specs(d))
     rho = draw(st.integers(1, 12)) / 4.0
     rho_field = draw(st.one_of(st.none(), st.integers(0, 99)))
     load_seed = draw(st.integers(0, 999))
@@ -67,8 +71,8 @@ def _measure(mesh):
 
 def check_elastic(case, rec):
     r = case["recipe"]
-    dim = gm.dim_of(r["elemType"])
-    mesh = gm.build(r)
+    dim = gm.dim_any(r)
+    mesh = gm.build_any(r)
     if mesh.Nn * dim > MAXDOF:
         raise Inconclusive("too many dofs for the dense oracle")
     if mesh.Ne < 2 or not gm.is_connected(mesh):
